@@ -19,7 +19,7 @@ import (
 
 // fakeBeh is what the scripted server does with one login attempt and the session that follows.
 type fakeBeh struct {
-	Login        string // accept | refuse | silent
+	Login        string // accept | refuse | silent | cut (connection cut while the client waits for the login reply)
 	PongOK       int    // answer this many pings, then fall silent for good (-1 = always answer)
 	PongError    bool   // answer pings with error pongs
 	AnswerRegs   int    // answer this many registrations, then fall silent for good (-1 = all)
@@ -63,6 +63,7 @@ type loginRec struct {
 }
 
 type fakeCtl struct {
+	relay *faultRelay
 	c     *h.Case
 	idx   int
 	mu    sync.Mutex
@@ -132,6 +133,12 @@ func (f *fakeCtl) onLogin(fs *h.FakeServer, l *msg.Login) (*msg.LoginResp, bool)
 		f.c.Ev("fake-login", "what", b.Login, "t", now)
 		if b.Login == "refuse" {
 			return &msg.LoginResp{Error: "refused by script"}, true
+		}
+		if b.Login == "cut" && f.relay != nil {
+			go func() {
+				time.Sleep(time.Duration(now%7) * time.Millisecond)
+				f.relay.CutAll()
+			}()
 		}
 		return nil, false
 	}
@@ -296,7 +303,7 @@ func bScript(k int, rng interface{ Intn(int) int }, thorough bool) (phases []str
 	case 8:
 		return []string{"cut-mid-registration", "cut-mid-registration"}, 150
 	case 9:
-		return []string{"silent-logins:1"}, 1
+		return []string{"silent-logins:1", "cut-before-login-reply:2"}, 1
 	case 10:
 		return []string{"pong-error", "down:" + dur(500, 4000)}, 1
 	case 11:
@@ -327,6 +334,7 @@ func bRandomScript(rng interface{ Intn(int) int }) (phases []string, n int) {
 		func() string { return "drop-after-login:" + strconv.Itoa(2+rng.Intn(7)) },
 		func() string { return "drop-for:" + dur(2000, 25000) },
 		func() string { return "cut-mid-registration" },
+		func() string { return "cut-before-login-reply:" + strconv.Itoa(1+rng.Intn(3)) },
 		func() string { return "cut" },
 		func() string { return "cut-quick:" + dur(20, 1500) },
 		func() string { return "live" },
@@ -351,45 +359,14 @@ func clientSideCase(c *h.Case, k int) {
 	c.Data["phases"], c.Data["proxies"], c.Data["mux"], c.Data["interval_s"], c.Data["timeout_s"] = phases, n, mux, pair.I, pair.T
 	user := fmt.Sprintf("b%d", c.Idx)
 
-	ports := pa.Block(3)
 	e := &bEnv{c: c, pair: pair, mux: mux}
-	e.fc = &fakeCtl{c: c, idx: c.Idx, byID: map[string]*sessRec{}}
-	var err error
-	e.fs, err = h.StartFakeServer(h.FakeServerOpts{Port: ports[0], Token: token, TCPMux: mux,
-		OnLogin:   e.fc.onLogin,
-		OnSession: e.fc.onSession,
-		OnWorkConn: func(fs *h.FakeServer, conn net.Conn, m *msg.NewWorkConn) {
-			e.fc.mu.Lock()
-			rec := e.fc.byID[m.RunID]
-			e.fc.mu.Unlock()
-			w := &wcRec{openedAt: h.Now()}
-			if rec != nil {
-				rec.mu.Lock()
-				rec.workConns = append(rec.workConns, w)
-				rec.mu.Unlock()
-			}
-			_, _ = io.Copy(io.Discard, conn) // never started
-			if rec != nil {
-				rec.mu.Lock()
-				w.endedAt = h.Now()
-				rec.mu.Unlock()
-			}
-			conn.Close()
-		},
-	})
-	if err != nil {
-		fmt.Fprintf(os.Stderr, "case %d: scripted server on port %d: %v\n", c.Idx, ports[0], err)
-		run.Inconclusive("B: scripted server did not start")
+	ports, ok := e.bring("B")
+	if !ok {
 		return
 	}
 	defer e.fs.Close()
-	e.relay, err = startFaultRelay(ports[1], fmt.Sprintf("127.0.0.1:%d", ports[0]))
-	if err != nil {
-		fmt.Fprintf(os.Stderr, "case %d: relay on port %d: %v\n", c.Idx, ports[1], err)
-		run.Inconclusive("B: relay did not start")
-		return
-	}
 	defer e.relay.Close()
+	var err error
 
 	var sb strings.Builder
 	fmt.Fprintf(&sb, `
@@ -407,7 +384,7 @@ transport.heartbeatTimeout = %d
 	for i := 0; i < n; i++ {
 		name := fmt.Sprintf("p%03d", i)
 		e.names = append(e.names, user+"."+name)
-		fmt.Fprintf(&sb, "[[proxies]]\nname = \"%s\"\ntype = \"stcp\"\nsecretKey = \"k\"\nlocalIP = \"127.0.0.1\"\nlocalPort = %d\n", name, ports[2])
+		fmt.Fprintf(&sb, "[[proxies]]\nname = \"%s\"\ntype = \"stcp\"\nsecretKey = \"k\"\nlocalIP = \"127.0.0.1\"\nlocalPort = %d\n", name, deadPort)
 	}
 
 	// faults that must be in place before the client's very first login
@@ -450,6 +427,52 @@ transport.heartbeatTimeout = %d
 	}
 }
 
+// bring starts the scripted server and the fault relay in front of it on fresh ports
+// (ports: scripted server, relay); a lost race for a port is retried.
+func (e *bEnv) bring(fam string) ([]int, bool) {
+	var err error
+	for attempt := 0; attempt < 4; attempt++ {
+		ports := pa.Block(2)
+		e.fc = &fakeCtl{c: e.c, idx: e.c.Idx, byID: map[string]*sessRec{}}
+		e.fs, err = h.StartFakeServer(h.FakeServerOpts{Port: ports[0], Token: token, TCPMux: e.mux,
+			OnLogin:   e.fc.onLogin,
+			OnSession: e.fc.onSession,
+			OnWorkConn: func(fs *h.FakeServer, conn net.Conn, m *msg.NewWorkConn) {
+				e.fc.mu.Lock()
+				rec := e.fc.byID[m.RunID]
+				e.fc.mu.Unlock()
+				w := &wcRec{openedAt: h.Now()}
+				if rec != nil {
+					rec.mu.Lock()
+					rec.workConns = append(rec.workConns, w)
+					rec.mu.Unlock()
+				}
+				_, _ = io.Copy(io.Discard, conn) // never started
+				if rec != nil {
+					rec.mu.Lock()
+					w.endedAt = h.Now()
+					rec.mu.Unlock()
+				}
+				conn.Close()
+			},
+		})
+		if err != nil {
+			fmt.Fprintf(os.Stderr, "case %d: scripted server on port %d: %v\n", e.c.Idx, ports[0], err)
+			continue
+		}
+		e.relay, err = startFaultRelay(ports[1], fmt.Sprintf("127.0.0.1:%d", ports[0]))
+		if err != nil {
+			fmt.Fprintf(os.Stderr, "case %d: relay on port %d: %v\n", e.c.Idx, ports[1], err)
+			e.fs.Close()
+			continue
+		}
+		e.fc.relay = e.relay
+		return ports, true
+	}
+	run.Inconclusive(fam + ": scripted server / relay did not start")
+	return nil, false
+}
+
 func (e *bEnv) healthy(after int64) bool {
 	s := e.fc.last()
 	if s == nil || s.LoginAt < after || !s.has(e.names) {
@@ -490,6 +513,10 @@ func (e *bEnv) checkRate(kind string, times []int64, limit int) {
 	n, at := maxInWindow(times, 5*time.Second)
 	e.c.Ev("attempt-rate", "phase", kind, "attempts", len(times), "max_in_5s", n)
 	run.Count("B_outage_attempts_seen", int64(len(times)))
+	if n > limit && lag.Max(at, at+int64(5*time.Second)) > time.Second {
+		run.Inconclusive("B: observer stalled while counting attempts")
+		return
+	}
 	if n > limit {
 		e.c.Violation("retry-tight-loop", "%s: %d connection / login attempts in the 5 s window starting at t=%.3f s (limit %d; frpc's documented schedule: 1 s x 2^n back-off, at most 3 fast retries of >= 200 ms)", kind, n, secs(at), limit)
 	}
@@ -626,10 +653,10 @@ func (e *bEnv) phase(ph string) bool {
 				}
 				return len(s.workConns), open
 			}
-			waitUntil(10*time.Second, func() bool { _, o := open(); return o == 0 })
+			waitUntil(releaseGrace, func() bool { _, o := open(); return o == 0 })
 			if n, o := open(); o > 0 {
-				e.c.Violation("client-work-connection-left-open-after-session-death", "mux=%v heartbeat %d/%d: 10 s after frpc gave up the silent session, %d of the %d work connections it had opened for that session (not yet started by the server) are still open",
-					e.mux, e.pair.I, e.pair.T, o, n)
+				e.c.Violation("client-work-connection-left-open-after-session-death", "mux=%v heartbeat %d/%d: %v after frpc gave up the silent session, %d of the %d work connections it had opened for that session (not yet started by the server) are still open",
+					e.mux, e.pair.I, e.pair.T, releaseGrace, o, n)
 			} else {
 				run.Count("B_pending_work_conns_closed_with_session", int64(n))
 			}
@@ -666,6 +693,19 @@ func (e *bEnv) phase(ph string) bool {
 		time.Sleep(d)
 		e.checkRate("sessions-dropped-after-login", e.fc.logins(start, heal, ""), 10)
 		return e.awaitRecovery("dropped-sessions", heal, heal)
+
+	case "cut-before-login-reply":
+		for i := 0; i < argN; i++ {
+			e.fc.push(fakeBeh{Login: "cut"})
+		}
+		e.relay.CutAll()
+		if !waitUntil(time.Duration(22*argN+20)*time.Second, func() bool { return e.fc.queued() == 0 }) {
+			e.c.Violation("no-retry-after-cut-login", "only %d login attempts within %d s when the connection is cut before the login reply", len(e.fc.logins(start, h.Now(), "")), 22*argN+20)
+			return false
+		}
+		cl := e.fc.logins(start, h.Now(), "cut")
+		e.checkRate("cut-before-login-reply", e.fc.logins(start, h.Now(), ""), 10)
+		return e.awaitRecovery("cut-before-login-reply", start, cl[len(cl)-1])
 
 	case "silent-logins":
 		for i := 0; i < argN; i++ {
@@ -746,4 +786,79 @@ func (e *bEnv) phase(ph string) bool {
 	}
 	run.Inconclusive("B: unknown phase " + ph)
 	return false
+}
+
+// Family E: heartbeatTimeout equal to heartbeatInterval — the smallest timeout the configuration accepts.
+// Either the configuration is refused, or a session whose every ping is answered at once must stay up.
+func equalSettingsCase(c *h.Case, k int) {
+	v := 1 + k%3
+	mux := (k/3)%2 == 0
+	pair := hb{I: v, T: v}
+	c.Data["mux"], c.Data["interval_s"], c.Data["timeout_s"] = mux, v, v
+	user := fmt.Sprintf("e%d", c.Idx)
+	e := &bEnv{c: c, pair: pair, mux: mux}
+	ports, ok := e.bring("E")
+	if !ok {
+		return
+	}
+	defer e.fs.Close()
+	defer e.relay.Close()
+	var err error
+	e.names = []string{user + ".p000"}
+	t0 := h.Now()
+	e.cli, err = h.StartClientText(prop, fmt.Sprintf(`
+serverAddr = "127.0.0.1"
+serverPort = %d
+user = "%s"
+auth.token = "%s"
+loginFailExit = false
+transport.tls.enable = false
+transport.tcpMux = %v
+transport.poolCount = 0
+transport.heartbeatInterval = %d
+transport.heartbeatTimeout = %d
+[[proxies]]
+name = "p000"
+type = "stcp"
+secretKey = "k"
+localIP = "127.0.0.1"
+localPort = %d
+`, ports[1], user, token, mux, v, v, deadPort))
+	if err != nil {
+		if strings.Contains(err.Error(), "heartbeat") {
+			run.Count("E_settings_refused_by_validation", 1)
+			run.Distinct(fmt.Sprintf("E|%d/%d|mux=%v|refused", v, v, mux))
+			c.Ev("refused", "err", err.Error())
+			return
+		}
+		run.Inconclusive("E: client did not start: " + err.Error())
+		return
+	}
+	defer e.cli.Close()
+	e.status = &statusProbe{cli: e.cli, names: e.names}
+	if !e.awaitRecovery("start", t0, t0) {
+		return
+	}
+	start := h.Now()
+	obs := time.Duration(6*v+2) * time.Second
+	time.Sleep(obs)
+	end := h.Now()
+	e.fc.mu.Lock()
+	sess := append([]*sessRec(nil), e.fc.sess...)
+	e.fc.mu.Unlock()
+	for _, s := range sess {
+		sv := s.view()
+		if sv.closedAt == 0 {
+			continue
+		}
+		if l := lag.Max(start-int64(time.Duration(v)*time.Second), end); l > lagLimit {
+			run.Inconclusive("E: machine too loaded to judge a closed live session")
+			return
+		}
+		c.Violation("live-session-torn-down-when-timeout-equals-interval", "mux=%v, heartbeatInterval = heartbeatTimeout = %d s (accepted by the configuration validation): frpc closed a session whose every ping was answered at once (%d pings, %d pongs) %.3f s after the last pong was written; %d logins within %v",
+			mux, v, sv.pings, sv.pongs, secs(sv.closedAt-sv.lastPong), len(sess), obs)
+		return
+	}
+	run.Count("E_live_phases_held", 1)
+	run.Distinct(fmt.Sprintf("E|%d/%d|mux=%v|held", v, v, mux))
 }
